@@ -9,6 +9,12 @@ Called from harness/extract_tables.py.  Extracted:
 The model's `hasAccepted` interprets this table, so a change of the literals changes the
 model, and the theorems that tie `hasAccepted` to the specification's `Accepting` are
 re-checked against what the source says now.
+  * `hasAcceptedShapeOk` is false as soon as a statement of `_has_accepted` is not of the shapes
+    above (an extra `if`, an unrecognised test inside a mode `if`, an `else`, another final
+    `return`) **or** one of the helpers the model takes from pda.py (`_has_accepted`,
+    `_validate_acceptance`, `_has_lambda_transition`, `_replace_stack_top`, `validate`) is overridden
+    in npda.py / dpda.py (`overriddenInSubclasses`).  `C02_has_accepted_shape` (Props/C02.lean)
+    is the registered obligation `hasAcceptedShapeOk = true`, so either change breaks it.
 """
 from __future__ import annotations
 
@@ -59,6 +65,9 @@ def _acc_test(body, cfg_name) -> str:
     return "other"
 
 
+BASE_HELPERS = ("_has_accepted", "_validate_acceptance", "_has_lambda_transition", "_replace_stack_top", "validate")
+
+
 def gen_pda(parse) -> str:
     tree = parse("automata/pda/pda.py")
     valid_modes = []
@@ -84,7 +93,10 @@ def gen_pda(parse) -> str:
                 if isinstance(st, ast.If) and not st.orelse:
                     mc = _mode_compare(st.test)
                     if mc and mc[0] in ("In", "Eq"):
-                        rules.append((mc[1], _acc_test(st.body, cfg)))
+                        t = _acc_test(st.body, cfg)
+                        rules.append((mc[1], t))
+                        if t == "other":
+                            shape_ok = False
                     else:
                         rules.append(([], "other"))
                         shape_ok = False
@@ -92,6 +104,25 @@ def gen_pda(parse) -> str:
                     pass
                 else:
                     shape_ok = False
+    # the helpers the model takes from the base class must not be overridden in the subclasses
+    overridden = []
+    for rel in ("automata/pda/npda.py", "automata/pda/dpda.py"):
+        try:
+            sub = parse(rel)
+        except (FileNotFoundError, SyntaxError):
+            continue
+        for node in ast.walk(sub):
+            if isinstance(node, (ast.FunctionDef, ast.AsyncFunctionDef)) and node.name in BASE_HELPERS:
+                overridden.append(rel.rsplit("/", 1)[1] + ":" + node.name)
+            # assignment in a class body / monkey patch: `_has_accepted = ...`, `NPDA._has_accepted = ...`
+            if isinstance(node, ast.Assign):
+                for tg in node.targets:
+                    name = tg.id if isinstance(tg, ast.Name) else tg.attr if isinstance(tg, ast.Attribute) else None
+                    if name in BASE_HELPERS:
+                        overridden.append(rel.rsplit("/", 1)[1] + ":" + name)
+    overridden = sorted(set(overridden))
+    if overridden:
+        shape_ok = False
     out = [
         "/- GENERATED by harness/extract_tables.py (extract_pda.py) from automata/pda/pda.py — do not edit. -/",
         "namespace AV.Gen.Pda",
@@ -115,7 +146,11 @@ def gen_pda(parse) -> str:
         ",\n".join("  ([" + ", ".join(_lean_str(m) for m in ms) + f"], .{t})" for ms, t in rules),
         "]",
         "",
-        "/-- The statements of `_has_accepted` all have the expected shape. -/",
+        "/-- Helpers of pda.py that npda.py / dpda.py override (the model reads them from pda.py only). -/",
+        "def overriddenInSubclasses : List String := [" + ", ".join(_lean_str(m) for m in overridden) + "]",
+        "",
+        "/-- The statements of `_has_accepted` all have the expected shape and no subclass overrides a",
+        "helper the model takes from pda.py. -/",
         f"def hasAcceptedShapeOk : Bool := {'true' if shape_ok else 'false'}",
         "",
         "end AV.Gen.Pda",
